@@ -9,7 +9,7 @@ def run(ctx):
     # directed slash-epoch histories with validators jailed / not bonded at the boundary while carrying fault counters
     # (state the message-driven `da` suite cannot reach); oracle only: slash_iff, fault_reset, challenge_counter
     from lib import fw
-    res = fw.corr(ctx, "daepoch", 150 if ctx.thorough() else 25, driver_suite=False)
+    res = fw.corr(ctx, "daepoch", 1000 if ctx.thorough() else 25, driver_suite=False)
     fw.report_corr(ctx, "daepoch", res, known_features=lambda f: {"check": f["check"]})
 
 
